@@ -1,5 +1,6 @@
 #!/usr/bin/env python3
-"""Which quick checks report which seeded change.
+"""Which quick checks report which seeded change (or, with --benign, which raise a false alarm
+on a property-preserving change kept under /verif/benign/<name>/patch.diff).
 
 Works on an ISOLATED copy: /tmp/mx/verif (a copy of /verif), /tmp/mx/repo (a scratch worktree
 of /repo's HEAD), own target directories — so it can run in the background without touching
@@ -8,7 +9,9 @@ scratch repo, run the quick checks of the seed's family (or all with --all), rec
 and violated keys, revert. Result: /verif/seeded/MATRIX.json (+ MATRIX.md).
 usage: seed_matrix.py [--all] [seed names...]"""
 import json, os, subprocess, sys, glob, shutil
-MX='/tmp/mx'
+BENIGN='--benign' in sys.argv
+MX='/tmp/bx' if BENIGN else '/tmp/mx'
+KIND='benign' if BENIGN else 'seeded'
 def sh(cmd, **k): return subprocess.run(cmd, shell=True, capture_output=True, text=True, **k)
 FAMILY={
  'sup':['C04','C06','C07','C09','C10','C05','C08','C18'],
@@ -50,8 +53,8 @@ def main():
     allchecks='--all' in args
     only=[a for a in args if not a.startswith('--')]
     setup()
-    seeds=sorted(glob.glob('/verif/seeded/*/patch.diff'))
-    mpath='/verif/seeded/MATRIX.json'
+    seeds=sorted(glob.glob('/verif/'+KIND+'/*/patch.diff'))
+    mpath=f'/verif/{KIND}/MATRIX.json'
     matrix=json.load(open(mpath)) if os.path.exists(mpath) else {}
     for pd in seeds:
         name=os.path.basename(os.path.dirname(pd))
@@ -75,8 +78,8 @@ def main():
         matrix[name]=row
         json.dump(matrix,open(mpath,'w'),indent=1,sort_keys=True)
     # markdown summary
-    with open('/verif/seeded/MATRIX.md','w') as f:
-        f.write('| seed | quick checks that report a violation | ran without violation |\n|---|---|---|\n')
+    with open(f'/verif/{KIND}/MATRIX.md','w') as f:
+        f.write('| change | quick checks that report a violation | ran without violation |\n|---|---|---|\n')
         for name in sorted(matrix):
             hit=[c for c,v in sorted(matrix[name].items()) if v['exit']==1]
             ok=[c for c,v in sorted(matrix[name].items()) if v['exit']==0]
